@@ -1,5 +1,6 @@
 import ExaModel.Lemmas.HealthSpec
 import ExaModel.Generated.HealthTable
+import ExaModel.Lemmas.HealthPy
 set_option linter.unusedSimpArgs false
 /-!
 # C20 — Healthcheck rise/fall hysteresis
@@ -24,6 +25,12 @@ What is a theorem and what is not: the automaton half of the statement and the *
 line (closed form `specCmd`) are theorems below.  "Syntactically valid ExaBGP API command" is a
 statement about the daemon's grammar, which is not modelled here: it is decided on every run by
 giving each line the real helper writes to the real daemon-side `API.process` (harness, C20.py).
+
+Tie to the source at proof level: `Generated/PyHealth.lean` is `trigger` and `one` of `healthcheck.loop`
+translated statement by statement on every run (`harness/pylite.py`, DESIGN 10.6c); `c20_py_trigger` and
+`c20_py_one` prove that the translated functions compute exactly the model's `trigger` and `fsm`/`one`/
+`handed` for every configuration, loop state and input — so the automaton theorems below are about the
+code as it is on this run, and an edit of the state machine breaks these obligations directly.
 -/
 namespace Exa.Props.C20
 open Exa Exa.Health
@@ -44,6 +51,28 @@ theorem c20_tables :
       Generated.HealthTable.defaultUpMetric, Generated.HealthTable.defaultDownMetric,
       Generated.HealthTable.defaultDisabledMetric, Generated.HealthTable.defaultIncrease,
       Generated.HealthTable.defaultLocalPreference) := by decide
+
+/-- **The model is the code** (1/2): `trigger`, translated from /repo on this run, is the model's
+    `trigger` (states numbered in the order of `class States`, `c20_py_states`). -/
+theorem c20_py_trigger (c : Cfg) (t : St) :
+    Generated.PyHealth.Health.trigger t.code c.rise c.fall = (trigger c t).code :=
+  py_trigger_eq_model c t
+
+theorem c20_py_states : Generated.PyHealth.stateNames = St.all.map St.name := stateNames_eq
+
+/-- **The model is the code** (2/2): `one(checks, state)`, translated from /repo on this run, returns
+    the model's `(checks, state)` and hands to `exabgp` exactly the model's `handed` — or raises
+    `ValueError` exactly where the model flags the unhandled state (unreachable:
+    `c20_unhandled_unreachable`). -/
+theorem c20_py_one (c : Cfg) (l : Loop) (i : Inp) (e0 : Int) :
+    Generated.PyHealth.Health.one ⟨e0⟩ l.checks l.st.code c.rise c.fall c.debounce c.hasDisable i.file i.ok =
+      if (fsm c l i).2.2 then .raise (-1) (-1)
+      else .ret ((one c l i).checks, (one c l i).st.code)
+        ⟨match handed c l i with | some t => t.code | none => e0⟩ := by
+  rw [py_one_eq_model]
+  cases h : (fsm c l i).2.2
+  · rw [pyOfFsm_emitted c l i e0 h]; simp; cases handed c l i <;> rfl
+  · simp [pyOfFsm, h]
 
 /-- `St.all` is every state (so the table theorem covers the whole enum). -/
 theorem c20_states_complete (t : St) : t ∈ St.all := by cases t <;> decide
